@@ -197,6 +197,8 @@ class Report:
 
     def floor(self, name, minimum):
         got = self.analysed.get(name, 0)
+        if got < minimum and self.violations:
+            return      # instances are missing *because* of reported violations: report those
         if got < minimum:
             raise AnalysisBroken("rule instance count for '%s' is %d, below the "
                                  "confirmed floor %d (rule would pass vacuously)"
